@@ -221,3 +221,10 @@ TEXTS["C10"] = {
     "note": "PROVISIONAL",
     "technique": "PROVISIONAL",
 }
+
+TEXTS["C11"] = {
+    "text": "PROVISIONAL",
+    "design_ref": "DESIGN.md section 5 C09-C11 shared machinery, C11",
+    "note": "PROVISIONAL",
+    "technique": "PROVISIONAL",
+}
